@@ -80,7 +80,7 @@ Definition elem_is_valid (sub : ascii) (c : ectx) (e : elem) (parent_comp : opti
   let pre := [HAddEle info] in
   let nm := q (e_name e) ++ l " (" ++ ostr0 refdes ++ l ")" in
   match d with
-  | Some (_ :: _ :: _ as comps) =>
+  | Some ((_ :: _ :: _) as comps) =>
       (* an element node given a composite value *)
       Ok (false, pre ++ [mk_ev refdes "6" (l "Data element " ++ nm ++ l " is an invalid composite") (Some (format_comp sub comps))])
   | _ =>
